@@ -111,7 +111,8 @@ func VPH_C27_call() {
 		netid = []string{"tcp", "tcp6", "udp", "udp6", "other"}[vpChoose("netid", 0, 4)]
 	}
 	if version != 2 && proc == 1 {
-		uaddr = []string{"0.0.0.0.8.1", "10.0.0.1.0.111", "", "garbage"}[vpChoose("uaddr", 0, 3)]
+		// universal addresses: ordinary ones, and the largest octet (255) in the port and in the host part
+		uaddr = []string{"0.0.0.0.8.1", "10.0.0.1.0.111", "", "garbage", "0.0.0.0.255.255", "0.0.0.0.3.255", "255.255.255.255.8.1"}[vpChoose("uaddr", 0, 6)]
 	}
 
 	var b vpBuf
@@ -240,6 +241,12 @@ func VPH_C27_call() {
 					port, ok = 2049, true
 				} else if uaddr == "10.0.0.1.0.111" {
 					port, ok = 111, true
+				} else if uaddr == "0.0.0.0.255.255" {
+					port, ok = 65535, true
+				} else if uaddr == "0.0.0.0.3.255" {
+					port, ok = 1023, true
+				} else if uaddr == "255.255.255.255.8.1" {
+					port, ok = 2049, true
 				}
 			}
 			if ok {
